@@ -178,6 +178,11 @@ class TitanRequest(BaseRequest):
         if "@" in re.split(r"[/?#]", line[8:], maxsplit=1)[0]:
             raise ValueError(f"URL must not contain userinfo (user:password): {line}")
 
+        # Only the part before the first ';' goes through parse_url, so its
+        # TAB/CR/LF check never sees the parameters
+        if "\t" in line or "\r" in line or "\n" in line:
+            raise ValueError("Invalid URL: TAB, CR and LF characters are not allowed")
+
         # Find the path end and params start
         # Format: titan://host/path;size=X;mime=Y;token=Z
         url_part, params_str = line.split(";", 1)
